@@ -68,6 +68,15 @@ func init() {
 		}
 		sr := x.FairSuffix(40)
 		fmt.Printf("suffix: %+v\n", sr)
+		if !sr.Quiescent && os.Getenv("SMOKE_PROBE") != "" {
+			for _, n := range x.C.Nodes {
+				if n != nil && !n.Down && n.Node.VCoreState().Busy {
+					err := x.Step(sched.Action{K: "G", A: n.Idx, B: (n.Idx + 1) % len(x.C.Nodes)})
+					cs := n.Node.VCoreState()
+					fmt.Printf("probe: gossip by busy node %d: err=%v head=%.10s seq=%d accepted=%d removed=%d lastRound=%d heads=%v\n", n.Idx, err, cs.Head, cs.Seq, cs.AcceptedRound, cs.RemovedRound, n.Store.LastRound(), cs.Heads)
+				}
+			}
+		}
 		for _, n := range x.C.Nodes {
 			if n != nil {
 				all, _ := n.Node.GetAllValidatorSets()
@@ -77,6 +86,14 @@ func init() {
 				}
 				sort.Strings(rs)
 				fmt.Printf("node %d: blocks=%d state=%s peersets=%v ffstep=%d stalled=%d\n", n.Idx, len(n.App.Commits), n.Node.GetState(), rs, n.FFStep, n.Stalled)
+				if cs := n.Node.VCoreState(); cs.Busy {
+					h := n.Node.VHashgraph()
+					lcr := -1
+					if h.LastConsensusRound != nil {
+						lcr = *h.LastConsensusRound
+					}
+					fmt.Printf("   busy: pendingLoadedEvents=%d txpool=%d itxpool=%d selfsigs=%d lastConsensusRound=%d targetRound=%d\n", h.PendingLoadedEvents, len(cs.TxPool), len(cs.ItxPool), len(cs.SelfSigs), lcr, cs.TargetRound)
+				}
 			}
 		}
 		fmt.Printf("steps=%d violations=%d digests=%d stats=%+v time=%v\n", x.Steps, len(x.Viol), len(x.Digests), *st, time.Since(t0))
